@@ -5,6 +5,7 @@ values -- production by production, for ARBITRARY input (no assumption about who
 -/
 import SevenZ.Spec.Format
 import SevenZ.Lemmas.Number
+import SevenZ.Lemmas.Utf16
 import SevenZ.Lemmas.ParseBound
 namespace SevenZ
 open SevenZ.Impl SevenZ.Spec
@@ -1426,5 +1427,189 @@ theorem sOptVector_attrs_refines (w : String) (files : List FileEntry) (vals : L
   rw [P.bind_run gd, e2, P.bind_run (read1_cons ext s2)]
   simp only [hext', if_true, hdv]
   exact ⟨g, ir, hl.symm⟩
+
+end SevenZ
+
+namespace SevenZ
+open SevenZ.Impl SevenZ.Spec
+
+/-! ### FilesInfo: the Names property -/
+
+/-- the two UTF-16 decoders (the description's and the model of Python's) are the same function -/
+theorem decodeUtf16Units_eq : ∀ (n : Nat) (us : List Nat), us.length ≤ n → decodeUtf16Units us = decodeUnits us
+  | 0, us, h => by
+    have : us = [] := List.eq_nil_of_length_eq_zero (by omega)
+    subst this; simp [decodeUtf16Units, decodeUnits]
+  | n + 1, [], _ => by simp [decodeUtf16Units, decodeUnits]
+  | n + 1, [u], _ => by
+    simp [decodeUtf16Units, decodeUnits]
+  | n + 1, u :: l :: rest, h => by
+    simp only [decodeUtf16Units, decodeUnits]
+    have ih1 := decodeUtf16Units_eq n (l :: rest) (by simp at h ⊢; omega)
+    have ih2 := decodeUtf16Units_eq n rest (by simp at h ⊢; omega)
+    split
+    · split
+      · rw [ih2]
+      · rfl
+    · split
+      · rfl
+      · rw [ih1]
+
+/-- a decoded name has at least half as many characters as it has units -/
+theorem decodeUnits_length : ∀ (n : Nat) (us : List Nat) (cs : List Nat), us.length ≤ n → decodeUnits us = some cs →
+    us.length ≤ 2 * cs.length
+  | 0, us, cs, h, _ => by
+    have : us = [] := List.eq_nil_of_length_eq_zero (by omega)
+    subst this; simp
+  | n + 1, [], cs, _, _ => by simp
+  | n + 1, [u], cs, _, hd => by
+    simp only [decodeUnits] at hd
+    split at hd
+    · simp at hd
+    · split at hd
+      · simp at hd
+      · simp [decodeUnits] at hd; subst hd; simp
+  | n + 1, u :: l :: rest, cs, h, hd => by
+    simp only [decodeUnits] at hd
+    split at hd
+    · split at hd
+      · cases hr : decodeUnits rest with
+        | none => simp [hr] at hd
+        | some cs' =>
+          simp [hr] at hd; subst hd
+          have := decodeUnits_length n rest cs' (by simp at h ⊢; omega) hr
+          simp only [List.length_cons]; omega
+      · simp at hd
+    · split at hd
+      · simp at hd
+      · cases hr : decodeUnits (l :: rest) with
+        | none => simp [hr] at hd
+        | some cs' =>
+          simp [hr] at hd; subst hd
+          have := decodeUnits_length n (l :: rest) cs' (by simp at h ⊢; omega) hr
+          simp only [List.length_cons] at this ⊢; omega
+
+end SevenZ
+
+namespace SevenZ
+open SevenZ.Impl SevenZ.Spec
+
+/-- what a successful `splitNames` says about the bytes in front: nonzero 16-bit units, a zero unit, the rest -/
+theorem splitNames_inv : ∀ (fuel : Nat) (body : Bytes) (acc : List Nat) (cs : List Nat) (ns : List (List Nat)), IsBytes body →
+    splitNames fuel body acc = .ok (cs :: ns) →
+    ∃ us tail fuel', body = unitsToBytes us ++ 0 :: 0 :: tail ∧ (∀ u ∈ us, 0 < u ∧ u < 65536) ∧
+      decodeUtf16Units (acc.reverse ++ us) = some cs ∧ splitNames fuel' tail [] = .ok ns ∧ IsBytes tail
+  | _, [], [], cs, ns, _, h => by simp [splitNames] at h
+  | _, [], _ :: _, cs, ns, _, h => by simp [splitNames] at h
+  | _, [_], acc, cs, ns, _, h => by cases acc <;> simp [splitNames] at h
+  | 0, _ :: _ :: _, acc, cs, ns, _, h => by simp [splitNames] at h
+  | fuel + 1, lo :: hi :: rest, acc, cs, ns, hb, h => by
+    simp only [splitNames] at h
+    have hlo := hb lo (by simp)
+    have hhi := hb hi (by simp)
+    have hbr : IsBytes rest := fun x hx => hb x (by simp [hx])
+    by_cases hu : lo + 256 * hi = 0
+    · simp only [hu, if_true] at h
+      have hl0 : lo = 0 := by omega
+      have hh0 : hi = 0 := by omega
+      subst hl0 hh0
+      cases hd : decodeUtf16Units acc.reverse with
+      | none => simp [hd] at h
+      | some c0 =>
+        simp only [hd] at h
+        cases hr : splitNames fuel rest [] with
+        | error e => simp [hr, Except.map] at h
+        | ok r0 =>
+          simp only [hr, Except.map, Except.ok.injEq, List.cons.injEq] at h
+          obtain ⟨rfl, rfl⟩ := h
+          exact ⟨[], rest, fuel, by simp [unitsToBytes], by simp, by simpa using hd, hr, hbr⟩
+    · simp only [hu, if_false] at h
+      obtain ⟨us, tail, fuel', hbody, hus, hdec, hrest, hbt⟩ := splitNames_inv fuel rest ((lo + 256 * hi) :: acc) cs ns hbr h
+      refine ⟨(lo + 256 * hi) :: us, tail, fuel', ?_, ?_, ?_, hrest, hbt⟩
+      · simp only [unitsToBytes, List.cons_append, hbody]
+        have h1 : (lo + 256 * hi) % 256 = lo := by omega
+        have h2 : (lo + 256 * hi) / 256 = hi := by omega
+        rw [h1, h2]
+      · intro u hu'
+        rcases List.mem_cons.mp hu' with rfl | hm
+        · omega
+        · exact hus u hm
+      · simpa [List.reverse_cons, List.append_assoc] using hdec
+
+/-- **The Names property, for every input**: where the strict reader splits the property body into `n` names (UTF-16-LE,
+    each terminated by a zero unit, the body used up exactly), py7zr's per-member name loop reads the same names from
+    the same bytes — with its documented rewrite of backslashes — provided no name is longer than `read_utf16` allows
+    (65535 units: `MAX_LENGTH`; twice the number of characters bounds the number of units). -/
+theorem setNames_refines : ∀ (files : List FileEntry) (names : List (List Nat)) (fuel : Nat) (body : Bytes), IsBytes body →
+    files.length = names.length → (∀ cs ∈ names, 2 * cs.length < maxLength) →
+    splitNames fuel body [] = .ok names →
+    setNames files body = .ok ((files.zip names).map (fun (f, cs) => { f with filename := some (fixSlash cs) }), [])
+  | [], [], fuel, body, _, _, _, h => by
+    have hb : body = [] := by
+      cases body with
+      | nil => rfl
+      | cons x xs =>
+        cases xs with
+        | nil => simp [splitNames] at h
+        | cons y ys =>
+          cases fuel with
+          | zero => simp [splitNames] at h
+          | succ f =>
+            simp only [splitNames] at h
+            split at h
+            · have hd : decodeUtf16Units ([] : List Nat) = some [] := by simp [decodeUtf16Units]
+              simp only [List.reverse_nil, hd] at h
+              cases hr : splitNames f ys [] with
+              | error e => simp [hr, Except.map] at h
+              | ok r0 => simp [hr, Except.map] at h
+            · -- a name that never ends: the accumulator is non-empty when the body runs out
+              exfalso
+              have : ∀ (f : Nat) (b : Bytes) (a : List Nat), a ≠ [] → splitNames f b a ≠ .ok [] := by
+                intro f
+                induction f with
+                | zero =>
+                  intro b a ha hh
+                  cases b with
+                  | nil => cases a <;> simp_all [splitNames]
+                  | cons p ps => cases ps <;> simp [splitNames] at hh
+                | succ f ih =>
+                  intro b a ha hh
+                  cases b with
+                  | nil => cases a <;> simp_all [splitNames]
+                  | cons p ps =>
+                    cases ps with
+                    | nil => simp [splitNames] at hh
+                    | cons q qs =>
+                      simp only [splitNames] at hh
+                      split at hh
+                      · cases hd : decodeUtf16Units a.reverse with
+                        | none => simp [hd] at hh
+                        | some c0 =>
+                          simp only [hd] at hh
+                          cases hr : splitNames f qs [] with
+                          | error e => simp [hr, Except.map] at hh
+                          | ok r0 => simp [hr, Except.map] at hh
+                      · exact ih qs _ (by simp) hh
+              exact this f ys _ (by simp) h
+    subst hb
+    rfl
+  | [], _ :: _, _, _, _, hl, _, _ => by simp at hl
+  | _ :: _, [], _, _, _, hl, _, _ => by simp at hl
+  | f :: fs, cs :: ns, fuel, body, hb, hl, hlen, h => by
+    obtain ⟨us, tail, fuel', hbody, hus, hdec, hrest, hbt⟩ := splitNames_inv fuel body [] cs ns hb h
+    simp only [List.reverse_nil, List.nil_append] at hdec
+    rw [decodeUtf16Units_eq us.length us (Nat.le_refl _)] at hdec
+    have hul : us.length < maxLength := by
+      have := decodeUnits_length us.length us cs (Nat.le_refl _) hdec
+      have := hlen cs (by simp)
+      omega
+    have hread : pUtf16Name body = .ok (fixSlash cs, tail) := by
+      unfold pUtf16Name readUtf16
+      rw [hbody, readUnits_units us maxLength tail hus hul]
+      simp [hdec]
+    have ih := setNames_refines fs ns fuel' tail hbt (by simpa using hl) (fun c hc => hlen c (by simp [hc])) hrest
+    simp only [setNames, List.zip_cons_cons, List.map_cons]
+    rw [P.bind_run hread, P.bind_run ih]
+    rfl
 
 end SevenZ
